@@ -490,3 +490,104 @@ func init() {
 		Assumptions: append([]string{"M-reflect, M-binary-write; unicode/utf8 executed from the standard library's SSA"}, commonAssumptions...),
 	})
 }
+
+func kindSeqs(n int) []int {
+	total := 1
+	for i := 0; i < n; i++ {
+		total *= 6
+	}
+	var r []int
+	for c := 0; c < total; c++ {
+		r = append(r, c)
+	}
+	return r
+}
+
+func init() {
+	streamModel := "streams of the harness's FIT stream model: an activity file (12- or 14-byte header) with a file_id record, five definitions (record little-endian, unknown message with arbitrary unknown number, record big-endian with an arbitrary unlisted field, record with a developer field, lap) and n data records of any of 6 kinds (record, unknown message, record with unlisted field, developer-field record, compressed-timestamp record, lap) in every order, all field bytes arbitrary"
+	reg(&CheckDef{
+		ID: "C10",
+		Jobs: func(tier string, meta map[string]int) []Job {
+			var js []Job
+			n := 2
+			if tier == "thorough" {
+				n = 3
+			}
+			for _, k := range kindSeqs(n) {
+				for _, chunk := range []int{0, 1, 3, 7} {
+					js = append(js, job("fit", "H10a", "n", n, "kinds", k, "crc", (k+chunk)%2, "chunk", chunk))
+					js = append(js, job("fit", "H10b", "n", n, "kinds", k, "chunk", chunk))
+				}
+			}
+			return js
+		},
+		MustReach: []string{"C10.decode.consumes-exactly-the-frame", "C10.decode.never-requests-beyond-frame", "C10.checkintegrity.consumes-exactly-the-frame", "C10.decodeheader.same-header", "C10.headerandfileid.same-fileid", "C10.chained.one-file-per-input", "C10.chained.equals-decoding-alone"},
+		Bounds: map[string]interface{}{
+			"quick":    streamModel + "; n = 2; the frame is followed by three arbitrary bytes; reader chunk sizes 1, 3, 7 and unlimited; chained: two such files",
+			"thorough": "as quick with n = 3",
+		},
+		Outside:     []string{"streams outside the model (device files), chunk patterns that vary within a stream, chains of more than two files, reads larger than the 4096-byte internal buffer"},
+		Assumptions: append([]string{"reader = harness vReader honouring the io.Reader contract (n = 0 only with an error)"}, commonAssumptions...),
+	})
+	reg(&CheckDef{
+		ID: "C11",
+		Jobs: func(tier string, meta map[string]int) []Job {
+			var js []Job
+			n := 2
+			if tier == "thorough" {
+				n = 3
+			}
+			for _, k := range kindSeqs(n) {
+				for _, chunk := range []int{0, 1, 3} {
+					for fault := 0; fault <= 1; fault++ {
+						if tier != "thorough" && (k+chunk+fault)%2 == 1 {
+							continue // quick: every sequence, half of the (chunk, fault) grid, alternating
+						}
+						js = append(js, job("fit", "H11a", "n", n, "kinds", k, "crc", (k+chunk)%2, "chunk", chunk, "fault", fault))
+					}
+				}
+			}
+			for mode := 0; mode <= 2; mode++ {
+				for _, chunk := range []int{0, 1, 3} {
+					js = append(js, job("fit", "H11b", "mode", mode, "chunk", chunk))
+				}
+			}
+			return js
+		},
+		MustReach: []string{"C11.decode.error-on-cut", "C11.decode.partial-content-is-the-completed-prefix", "C11.checkintegrity.error-on-cut", "C11.decodeheader.error-on-cut", "C11.headerandfileid.error-on-cut", "C11.chained.error-on-cut-in-first-file", "C11.chain.clean-end-on-boundary", "C11.chain.clean-end-after-second-file", "C11.chain.cut-inside-second-file-is-error", "C11.chain.fault-is-error", "C11.chain.stray-byte-is-error"},
+		Bounds: map[string]interface{}{
+			"quick":    streamModel + "; n = 2; every cut offset and every fault offset inside the frame (case-split by the solver), chunk sizes 1, 3 and unlimited; chain boundary: file followed by every prefix of a second file, by a fault at every offset of it, or by one arbitrary stray byte",
+			"thorough": "as quick with n = 3 and the full (chunk, fault) grid",
+		},
+		Outside:     []string{"streams outside the model; readers that violate the io.Reader contract; faults that are not persistent"},
+		Assumptions: append([]string{"reader = harness vReader: clean io.EOF at the cut, or a persistent non-EOF error from the fault offset on"}, commonAssumptions...),
+	})
+	reg(&CheckDef{
+		ID: "C16",
+		Jobs: func(tier string, meta map[string]int) []Job {
+			var js []Job
+			for _, k := range kindSeqs(3) {
+				js = append(js, job("fit", "H16a", "n", 3, "kinds", k, "crc", k%2, "chunk", []int{0, 1, 3}[k%3], "cut", 0))
+			}
+			nc := 2
+			if tier == "thorough" {
+				nc = 3
+			}
+			for _, k := range kindSeqs(nc) {
+				js = append(js, job("fit", "H16a", "n", nc, "kinds", k, "crc", k%2, "chunk", []int{0, 1, 3}[k%3], "cut", 1))
+			}
+			js = append(js, job("fit", "H16b", "n", 1), job("fit", "H16b", "n", 2))
+			if tier == "thorough" {
+				js = append(js, job("fit", "H16b", "n", 3))
+			}
+			return js
+		},
+		MustReach: []string{"C16.options.same-error", "C16.options.same-bytes-consumed", "C16.options.same-messages", "C16.fields.exact", "C16.messages.exact", "C16.fields.absent-without-option", "C16.fields.sorted", "C16.messages.sorted", "C16.fields.counts-preserved"},
+		Bounds: map[string]interface{}{
+			"quick":    streamModel + "; n = 3 uncut, n = 2 cut at every offset after the file_id record; all 8 option combinations (symbolic); sortedness of the exported lists: up to 2 arbitrary keys in every map iteration order",
+			"thorough": "as quick with n = 3 cut streams and 3 keys",
+		},
+		Outside:     []string{"streams outside the model; more than one distinct unknown message number / unlisted field number per stream (the model has one of each, with arbitrary values)"},
+		Assumptions: append([]string{"Logger = harness no-op type; map iteration order is a symbolic permutation in H16b; sort.Sort executed from the standard library's SSA"}, commonAssumptions...),
+	})
+}
